@@ -254,6 +254,7 @@ Eval(n, o) ==
                  ELSE Ok(Lv([c \in 1 .. Len(cs.v) |-> [t |-> "u", l |-> <<cs.v[c].flat, rs[c].v>>]]))
       [] nd.k = "with" -> Eval(nd.inner, Overlay(nd, o))
       [] nd.k = "cached" -> Eval(nd.inner, o)
+      [] nd.k = "logged" -> Eval(nd.inner, o)
       [] nd.k = "ds" ->
             LET o2 == DsOptions(nd, o)
                 sel == DsSelect(nd, o2) IN
@@ -340,6 +341,7 @@ Validate(n, o) ==
                  IF bad # {} THEN rs[CHOOSE c \in bad : \A j \in bad : c <= j] ELSE OkV
       [] nd.k = "with" -> Validate(nd.inner, Overlay(nd, o))
       [] nd.k = "cached" -> Validate(nd.inner, o)
+      [] nd.k = "logged" -> Validate(nd.inner, o)
       [] nd.k = "ds" ->
             LET o2 == DsOptions(nd, o)
                 sel == DsSelect(nd, o2) IN
@@ -432,6 +434,7 @@ KeysOf(n, o) ==
             LET ks == KeysOf(nd.inner, Overlay(nd, o)) IN
             IF ~ks.ok THEN ks ELSE OkK(WithFilter(ks.ks, nd, o))
       [] nd.k = "cached" -> KeysOf(nd.inner, o)
+      [] nd.k = "logged" -> KeysOf(nd.inner, o)
       [] nd.k = "ds" ->
             LET o1 == Mix(nd.dd, o)
                 o2 == Mix(o1, nd.q)
@@ -521,6 +524,7 @@ Explain(n, o) ==
             LET ks == Explain(nd.inner, Overlay(nd, o)) IN
             IF ~ks.ok THEN ks ELSE OkK(WithFilterX(ks.ks, nd, o))
       [] nd.k = "cached" -> Explain(nd.inner, o)
+      [] nd.k = "logged" -> Explain(nd.inner, o)
       [] nd.k = "ds" ->
             LET o1 == Mix(nd.dd, o)
                 o2 == Mix(o1, nd.q)
@@ -592,11 +596,50 @@ Visit(n, o) ==
             (IF ~cs.ok THEN {} ELSE UNION {Visit(nd.inner, Mix(o, cs.v[c].nested)) : c \in 1 .. Len(cs.v)})
       [] nd.k = "with" -> Visit(nd.inner, Overlay(nd, o))
       [] nd.k = "cached" -> Visit(nd.inner, o)
+      [] nd.k = "logged" -> Visit(nd.inner, o)
       [] nd.k = "ds" ->
             LET o2 == DsOptions(nd, o)
                 sel == DsSelect(nd, o2) IN
             OptVisit(nd.disp, o2) \cup (IF sel.ok THEN Visit(sel.n, o2) ELSE {})
       [] nd.k = "fnapp" -> VisitSeq(nd.args, o)
+
+\* Surely(n, o): nodes whose evaluate() certainly runs during evaluate(n, o) -- a LOWER bound (Visit is the
+\* upper bound): stated for the kinds whose evaluation order is fixed and that do not change the options.
+RECURSIVE Surely(_, _)
+SurelySeq(ns, o) ==   \* members in order, up to and including the first that fails
+    LET firstbad == IF \E i \in 1 .. Len(ns) : ~Eval(ns[i], o).ok
+                    THEN CHOOSE i \in 1 .. Len(ns) : ~Eval(ns[i], o).ok /\ \A j \in 1 .. i - 1 : Eval(ns[j], o).ok
+                    ELSE Len(ns) IN
+    UNION {Surely(ns[i], o) : i \in 1 .. firstbad}
+Surely(n, o) ==
+    LET nd == NodeRec(n) IN
+    {n} \cup
+    CASE nd.k = "opt" -> IF ~Has(nd.p, o) /\ nd.d # 0 THEN Surely(nd.d, o) ELSE {}
+      [] nd.k = "apply" -> Surely(nd.src, o) \cup (IF Eval(nd.src, o).ok /\ nd.fp # 0 THEN Surely(nd.fp, o) ELSE {})
+      [] nd.k = "switch" ->
+            LET dv == Eval(nd.d, o) IN
+            Surely(nd.d, o) \cup
+            (IF ~dv.ok THEN (IF nd.dflt = 0 \/ dv.cls = "IllTyped" THEN {} ELSE Surely(nd.dflt, o))
+             ELSE IF ~Hashable(dv.v) THEN {}
+             ELSE LET hit == TabFind(nd.lk, dv.v) IN
+                  IF hit # 0 THEN Surely(hit, o) ELSE IF nd.dflt = 0 THEN {} ELSE Surely(nd.dflt, o))
+      [] nd.k = "coalesce" ->     \* every member that validates is evaluated until one succeeds
+            UNION {Surely(nd.ms[i], o) :
+                     i \in {k \in 1 .. Len(nd.ms) : Validate(nd.ms[k], o).ok
+                                                     /\ \A j \in 1 .. k - 1 : ~(Validate(nd.ms[j], o).ok /\ Eval(nd.ms[j], o).ok)}}
+      [] nd.k = "coll" -> SurelySeq(nd.ms, o)
+      [] nd.k = "fnapp" -> SurelySeq(nd.args, o)
+      [] nd.k = "logged" -> Surely(nd.inner, o)
+      [] OTHER -> {}
+
+\* Logged(inner, ..., log_first): the message is emitted before the inner evaluation starts (always, once the
+\* node is evaluated) or after it has succeeded (never when it fails).  MayLog: Logged nodes an evaluation may
+\* reach; MustLog: those that certainly emit; NoLog: reached or not, these must stay silent.
+MayLog(n, o) == {x.n : x \in {y \in Visit(n, o) : NodeRec(y.n).k = "logged"}}
+Emits(m, o) == NodeRec(m).first \/ Eval(NodeRec(m).inner, o).ok
+MustLog(n, o) == {m \in Surely(n, o) : NodeRec(m).k = "logged" /\ Emits(m, o)}
+NoLog(n, o) == {x.n : x \in {y \in Visit(n, o) : NodeRec(y.n).k = "logged"}} \
+               {x.n : x \in {y \in Visit(n, o) : NodeRec(y.n).k = "logged" /\ Emits(y.n, y.o)}}
 
 \* the dataset a derivative was derived from (bodies, caches and tables belong to it)
 RECURSIVE BaseOf(_)
@@ -665,6 +708,7 @@ ValRuns(n, o) ==
             (IF ~cs.ok THEN {} ELSE UNION {ValRuns(nd.inner, Mix(o, cs.v[c].nested)) : c \in 1 .. Len(cs.v)})
       [] nd.k = "with" -> ValRuns(nd.inner, Overlay(nd, o))
       [] nd.k = "cached" -> ValRuns(nd.inner, o)
+      [] nd.k = "logged" -> ValRuns(nd.inner, o)
       [] nd.k = "ds" ->
             LET o2 == DsOptions(nd, o)
                 sel == DsSelect(nd, o2) IN
@@ -693,6 +737,7 @@ Lazy(n, o) ==
       [] nd.k = "coalesce" -> \E i \in 1 .. Len(nd.ms) : Lazy(nd.ms[i], o)                        \* any member (over-approximation)
       [] nd.k = "with" -> Lazy(nd.inner, Overlay(nd, o))
       [] nd.k = "cached" -> Lazy(nd.inner, o)
+      [] nd.k = "logged" -> Lazy(nd.inner, o)
       [] nd.k = "ds" ->
             LET o2 == DsOptions(nd, o) sel == DsSelect(nd, o2) IN
             sel.ok /\ nd.cb = "" /\ NodeRec(sel.n).k # "fnapp" /\ Lazy(sel.n, o2)
@@ -745,6 +790,7 @@ Mentions(n) ==
       [] nd.k = "map" -> Mentions(nd.inner) \cup UNION {Mentions(nd.its[i].n) \cup {nd.its[i].p} : i \in 1 .. Len(nd.its)}
       [] nd.k = "with" -> Mentions(nd.inner) \cup Present(nd.q)
       [] nd.k = "cached" -> Mentions(nd.inner)
+      [] nd.k = "logged" -> Mentions(nd.inner)
       [] nd.k = "ds" -> Opt(nd.dflt) \cup Opt(nd.disp) \cup Present(nd.q) \cup Present(nd.dd) \cup EffKeys(nd, EmptyD) \cup
                         UNION {Mentions(DsTable(nd)[i].n) : i \in 1 .. Len(DsTable(nd))}
       [] nd.k = "fnapp" -> Kids(nd.args)
